@@ -388,6 +388,39 @@ pub fn gen_c18(sh: &mut Shards, o: &Opts) -> serde_json::Value {
             }
         }
     }
+    // the EDGE of the domain: for a grid of exponents (multiples of 1/8, and just beside every half-integer, where a split
+    // into integer part and remainder changes its mind) the two bases whose true result lies just inside [1e-35, 1e35].
+    // Intermediate overflow / underflow of a reformulated power (x^n * x^r, repeated squaring, exp of a sum) shows here.
+    {
+        let mut ys: Vec<f32> = Vec::new();
+        let step = if o.thorough { 64 } else { 8 };
+        for k in 1..=(80 * step) {
+            ys.push(k as f32 / step as f32);
+        }
+        for k in 0..80 {
+            for j in [6, 10, 14, 20] {
+                let d = 2f32.powi(-j);
+                ys.push(k as f32 + 0.5 + d);
+                ys.push(k as f32 + 0.5 - d);
+            }
+            ys.push(k as f32 + 0.5);
+        }
+        let ph = rng.unit();
+        for (i, &ya) in ys.iter().enumerate() {
+            for sg in [1.0f32, -1.0] {
+                let y = sg * ya;
+                for target in [8.0e34f64 * (1.0 - 0.3 * ph), 1.3e-35 * (1.0 + 0.3 * ph), if i % 2 == 0 { 1.0e30 } else { 1.0e-30 }] {
+                    let x = (target.ln() / f64::from(y)).exp() as f32;
+                    if x.is_normal() && x > 0.0 {
+                        let t = f64::from(x).powf(f64::from(y));
+                        if t > 1e-35 && t < 1e35 {
+                            ps.push((x, y));
+                        }
+                    }
+                }
+            }
+        }
+    }
     // interleave the exponents (a value-keyed memo of the last exponent / base would otherwise never be disturbed)
     for i in (1..ps.len()).rev() {
         let j = rng.below(i as u64 + 1) as usize;
@@ -413,6 +446,16 @@ pub fn gen_c18(sh: &mut Shards, o: &Opts) -> serde_json::Value {
     for _ in 0..(if o.thorough { 100_000 } else { 4000 }) {
         es.push(rng.range(-85.0, 85.0) as f32);
         es.push(rng.range(-2.0, 2.0) as f32);
+    }
+    // the saturation edges on a fine linear grid (a scale factor assembled from exponent bits wraps just beyond them)
+    {
+        let ph = rng.unit() as f32 / 16.0;
+        let mut x = 85.0f32 + ph;
+        while x < 200.0 {
+            es.push(x);
+            es.push(-x);
+            x += if o.thorough { 1.0 / 64.0 } else { 1.0 / 8.0 };
+        }
     }
     for _ in 0..(if o.thorough { 5000 } else { 400 }) {
         es.push(10f64.powf(rng.range(89f64.log10(), 38.0)) as f32);
